@@ -310,6 +310,11 @@ def gen_stmt(rng, kinds=("assign", "compound", "where", "fill", "reduce", "noali
         return Stmt("assign", target=target, e=e)
     if kind == "noalias":
         e2 = gen_expr(rng, dims, 1, "P", 0.0)      # operands from the other family only: wrapping them is legitimate
+        # gen_expr falls back to any family when the other one has no view of these extents: noalias() over an operand that
+        # shares memory with the target is the user's broken promise, not a statement with defined value semantics
+        tset = set(target.cells)
+        if any(v.name == target.name and any(c in tset for c in v.cells) for v in leaves(e2)):
+            return None
         return Stmt("assign", target=target, e=E("noalias", e2))
     if kind == "compound":
         op = rng.choice(["+", "+", "-", "*"])
